@@ -43,7 +43,7 @@ Print Assumptions keyboard_interrupt_status.
 
 (* ---- the renderer hypothesis discharged: proofs in Proofs/RunTraceLemmas.v ----
    render_ok is no longer assumed: it is report_ok c o x sols simple = "ExceptionTrace.render (Model/Trace.v, render_sol)
-   returned", for the error output o, the verbosity / directories c, and - inputs, universally quantified - the exn_case x
+   returned", for the output o the report is written to (the io's standard output), the verbosity / directories c, and - inputs, universally quantified - the exn_case x
    of the raised exception (class name, message, frames with the token streams tokenize delivers for them, or the fact
    that tokenize / reading the file raised) and the solutions sols found for it.  Run.v's exn says only whether the
    exception is KeyboardInterrupt and whether it is a CliKitException (then the report is the simple one).
